@@ -14,7 +14,7 @@ RULE = ("Parse records: every well-formed signature within a bound (<= 2 inputs,
         "from, to) x axis names; non-trivial = distinct texts / pairs")
 
 NAMES = ["X", "Y", "lon", "Zl", "k", "ax_2"]
-ALPHABET = list("(),:->XYq c_1 ") + ["e", "l", "Z", "-", ">", "n"]
+ALPHABET = list("(),:->XYq c_1 ") + ["e", "l", "Z", "-", ">", "n", "\n", "\t"]
 
 
 def chars(s):
@@ -197,7 +197,8 @@ def gen_cases(rng, thorough):
                 cases.append({"ev": "Parse", "text": chars(t[:i] + ch + t[i:])})
     # hand-picked malformed shapes of every listed class
     for t in ["(X:center),->(X:left)", "(X:center)->(X:left),", "(),->()", ",(X:center)->(X:left)", "(X:center)->,(X:left)",
-              "(X:center),(Y:left),->(X:left)", "()->(),"]:
+              "(X:center),(Y:left),->(X:left)", "()->(),", "(X:center)->(X:left)\n", "\n(X:center)->(X:left)", "(X:center)->(X:left)\t",
+              "(X:center)\n->(X:left)", "(X:center)->(X:left)\n\n", "()->()\n"]:
         cases.append({"ev": "Parse", "text": chars(t)})
     for t in ["(X:center)", "(X:center)->", "->(X:center)", "(X:center)->(X:left)->(X:center)", "((X:center))->(X:left)",
               "(X:center->(X:left)", "X:center)->(X:left)", "(X:center)(Y:left)->(X:left)", "(X:middle)->(X:left)",
